@@ -4,8 +4,13 @@ import ast
 from ..astutil import up, chain, calls, is_call_to, walk_local, paths, root_name, stores, const
 from ..rules import where, path_actions
 from ..loader import AnalysisError
-from .. import boolfn
+from .. import boolfn, alg
+from ..alg import Poly, P, B, sym, lt, mk_fn, sum_over
+from ..interp import Interp, Hooks, Foreign, Arr, Obj, Unk, symarr, scalar, num
+from ..fitmodel import loc
 from . import common
+
+R, W = 'r', 'w'
 
 EXPLANATION = (
     "Decides on every path of filter_output's loop body: (CFG-4) exactly one write of the loop record itself, to one of "
@@ -17,10 +22,140 @@ EXPLANATION = (
 NOT_DECIDED = ["pickle fidelity (library)", "behaviour at chi2 exactly equal to the threshold (excluded by the quantifier)"]
 ASSUMPTIONS = ["<= and < are identified (no exact ties)", "a loop body is analysed for one generic iteration"]
 TRUSTED = ["python ast"]
-MIN = {'CFG-4': 2, 'ALG-17': 1, 'CFG-4n': 4, 'EFF-2': 1, 'CFG-10': 1}
+MIN = {'CFG-4': 6, 'ALG-17': 3, 'CFG-4n': 5, 'EFF-2': 1, 'CFG-10': 1}
+
+
+
+class FilterHooks(Hooks):
+    """FitInfoFile objects are stand-ins: the reader iterates over one generic record; a writer records (file name, record, condition) for every write"""
+    def __init__(self, record):
+        self.record = record
+        self.writes, self.opened, self.closed = [], [], []
+
+    def construct(self, interp, ci, args, kwargs, node):
+        if ci.name == 'FitInfoFile':
+            mode = args[1] if len(args) > 1 else kwargs.get('mode')
+            self.opened.append((args[0] if args else None, mode))
+            if mode == 'r':
+                return _FileStandIn(self, 'r', args[0] if args else None)
+            return _FileStandIn(self, 'w', args[0] if args else None)
+        return NotImplemented
+
+
+class _FileStandIn(Foreign):
+    def __init__(self, hooks, mode, name):
+        self.hooks, self.mode, self.name = hooks, mode, name
+
+    def sl_iter(self, interp):
+        return [self.hooks.record] if self.mode == 'r' else NotImplemented
+
+    def sl_method(self, interp, name, args, kw, node):
+        if name == 'write' and self.mode == 'w' and len(args) == 1:
+            self.hooks.writes.append((self.name, args[0], interp.path_cond()))
+            return None
+        if name == 'close':
+            self.hooks.closed.append(self.name)
+            return None
+        return NotImplemented
+
+
+def semantic_filter_output(ctx):
+    """filter_output interpreted on one generic record, for each way the thresholds can be given: the record is written exactly once, to the good file
+    exactly when its best chi^2 (or best chi^2 per data point) is below the threshold given, otherwise to the bad file, and it is the record that was read."""
+    repo = ctx.repo
+    fo = ctx.fn(repo.func('filter_output', 'filter_output'))
+    where_ = loc(fo)
+    decided = True
+    best = mk_fn('at', B(R, sym('chi2', R)), P(Poly()))
+    v = sym('valid', W)
+    nd = sum_over(alg.eq(v, 1), W) + sum_over(alg.eq(v, 4), W)
+    for tag, use_chi, use_cpd in (('total chi^2 threshold', True, False), ('chi^2 per data point threshold', False, True), ('both thresholds', True, True)):
+        src = Obj(repo.cls('source.source', 'Source'), {'_valid': symarr('valid', (W,), unit=num(1))})
+        rec = Obj(repo.cls('fit_info', 'FitInfo'), {'source': src, 'chi2': symarr('chi2', (R,), unit=num(1)), 'av': symarr('av', (R,), unit=num(1)), 'sc': symarr('sc', (R,), unit=num(1))})
+        snapshot = dict(rec.attrs)
+        h = FilterHooks(rec)
+        I = Interp(repo, h)
+        I.nonzero = [sym('chi'), sym('cpd')]
+        kwargs = {'input_fits': 'IN', 'output_good': 'GOOD', 'output_bad': 'BAD', 'chi': scalar(sym('chi'), num(1)) if use_chi else None, 'cpd': scalar(sym('cpd'), num(1)) if use_cpd else None}
+        r = I.call(fo, [], kwargs)
+        inst = 'one record, %s' % tag
+        if I.lost:
+            ctx.undecided('CFG-4', inst, where_, 'a call made for its effect was not modelled: %s (%s)' % (I.lost[0][1], I.lost[0][2][:80]))
+            decided = False
+            continue
+        if isinstance(r, Unk):
+            ctx.undecided('CFG-4', inst, where_, 'not modelled: %r' % (r,))
+            decided = False
+            continue
+        g = Poly()
+        if use_chi:
+            g = alg.b_or(g, lt(best, sym('chi')))
+        if use_cpd:
+            g = alg.b_or(g, lt(best / nd, sym('cpd')))
+        per = {}
+        ok_rec = True
+        for name, obj, cond in h.writes:
+            per[name] = per.get(name, Poly()) + cond
+            if not (isinstance(obj, Obj) and obj.cls is rec.cls and all(obj.attrs.get(k) is snapshot[k] or (isinstance(obj.attrs.get(k), Arr) and isinstance(snapshot[k], Arr) and obj.attrs[k].poly == snapshot[k].poly) for k in snapshot if k != 'source')):
+                ok_rec = False
+        total = Poly()
+        for c in per.values():
+            total = total + c
+        if not alg.is_zero(total - 1)[0]:
+            syms, fns = alg.leaf_syms(total)
+            if syms <= {'chi2', 'valid', 'chi', 'cpd'} and fns <= {'at', 'len'}:
+                ctx.violation('CFG-4', inst, where_, 'the record is written %s times (to %s): each source must go to exactly one file' % (alg.show(total, 120), sorted(per)), 'write-count')
+            else:
+                ctx.undecided('CFG-4', inst, where_, 'number of writes %s not decided' % alg.show(total, 120)); decided = False
+            continue
+        ctx.ok('CFG-4', inst, where_, 'written exactly once, to %s' % sorted(per))
+        ctx.expect(ok_rec, 'CFG-4', inst + ': the record written is the record read', where_, 'unchanged', 'a record is modified (or another object is written) before it reaches the file', 'modified-before-write')
+        gg = per.get('GOOD', Poly())
+        if alg.is_zero(gg - g)[0]:
+            ctx.ok('ALG-17', inst + ': selector', where_, 'good file exactly when %s' % alg.show(g, 140))
+        else:
+            syms, fns = alg.leaf_syms(gg - g)
+            if syms <= {'chi2', 'valid', 'chi', 'cpd'} and fns <= {'at', 'len'}:
+                ctx.violation('ALG-17', inst + ': selector', where_, 'written to the good file when %s ; the statement says %s' % (alg.show(gg, 140), alg.show(g, 140)), 'selector')
+            else:
+                ctx.undecided('ALG-17', inst + ': selector', where_, 'condition %s not decided' % alg.show(gg, 140)); decided = False
+        names = {n for n, m in h.opened}
+        ctx.expect({'IN', 'GOOD', 'BAD'} <= names and {'IN', 'GOOD', 'BAD'} <= set(h.closed), 'CFG-4n', inst + ': files', where_, 'reads the input, writes the two named outputs, closes all three',
+                   'opened %s, closed %s' % (sorted(map(str, names)), sorted(map(str, h.closed))), 'files')
+    # automatic names
+    h = FilterHooks(Obj(repo.cls('fit_info', 'FitInfo'), {}))
+    I = Interp(repo, h)
+    I.nonzero = [sym('chi')]
+    r = I.call(fo, [], {'input_fits': 'IN', 'chi': scalar(sym('chi'), num(1))})
+    names = {n for n, m in h.opened if m == 'w'}
+    if (isinstance(r, Unk) and not names) or any(not isinstance(n_, str) for n_ in names):
+        ctx.undecided('CFG-4n', 'automatic output names', where_, 'not modelled: %r' % (r if isinstance(r, Unk) else sorted(map(str, names)),)); decided = False
+    else:
+        ctx.expect(names == {'IN_good', 'IN_bad'}, 'CFG-4n', 'automatic output names', where_, "input name + '_good' / '_bad'", 'automatic names are %s' % sorted(map(str, names)), 'auto-names')
+    h = FilterHooks(Obj(repo.cls('fit_info', 'FitInfo'), {}))
+    I = Interp(repo, h)
+    r = I.call(fo, [], {'input_fits': [Obj(repo.cls('fit_info', 'FitInfo'), {})], 'chi': scalar(sym('chi'), num(1))})
+    ctx.expect(isinstance(r, Unk) and 'always raises' in r.why, 'CFG-4n', 'non-string input requires explicit names', where_, 'raises when a name is automatic and the input is not a file name',
+               'automatic names are accepted for in-memory input', 'auto-name-guard') if not (isinstance(r, Unk) and 'always raises' not in r.why) else ctx.undecided('CFG-4n', 'non-string input requires explicit names', where_, 'not modelled: %r' % (r,))
+    return decided
 
 
 def run(ctx):
+    """decided by interpreting filter_output on a generic record (writes recorded with the condition they happen under); the path rules are the
+    fall-back when the interpretation has no verdict, and may then only say undecided"""
+    from ..roundtrip import SuspectCtx
+    if semantic_filter_output(ctx):
+        from .c10 import check_inputs
+        check_inputs(ctx)
+        common.check_ownership(ctx, only=('filter_output',))
+        return
+    try:
+        syntactic_rules(SuspectCtx(ctx, 'filter_output was not decided by interpretation and the path rule, which knows one spelling only, reports'))
+    except AnalysisError as e:
+        ctx.undecided('CFG-4', 'syntactic fall-back', 'sedfitter/filter_output.py', 'structure not recognised: %s' % e)
+
+
+def syntactic_rules(ctx):
     repo = ctx.repo
     fo = ctx.fn(repo.func('filter_output', 'filter_output'))
     pars = fo.params
